@@ -152,9 +152,9 @@ theorem durable_floor_consistent (c : Cfg) (hf : c.fixed = true) (s : St) (R : R
     have hp : answer c s .requireRetained n = .ok := by
       have := (IA.commIff n).mpr ⟨hn, hle⟩
       simp [answer, this]
-    exact probe_truthful hh IA n (not_dirty_fixed _ _ hf) hp q hq
+    exact probe_truthful IA n (not_dirty_fixed _ _ hf) hp q hq
   · intro hp q hq
-    exact probe_truthful hh IA n (not_dirty_fixed _ _ hf) hp q hq
+    exact probe_truthful IA n (not_dirty_fixed _ _ hf) hp q hq
   · intro hn
     exact stateAtHash_below_fixed hh IA hf n hn hle
 
